@@ -395,3 +395,28 @@ pub fn keysearch(n: usize, start: u64, count: u64, outfile: &str) {
         h.join().unwrap();
     }
 }
+
+/// `vh gammainfo`: for the gamma_above / gamma_below seeds of the corpus, which of the two Gram-Schmidt terms decides:
+/// prints `N index kind cand |f|^2+|g|^2 over q` (compare with the recorded value)
+pub fn gammainfo() {
+    use rand::SeedableRng;
+    let path = format!("{}/../corpus/special_seeds.txt", env!("CARGO_MANIFEST_DIR"));
+    for l in std::fs::read_to_string(&path).unwrap().lines() {
+        let t: Vec<&str> = l.split_whitespace().collect();
+        if t.len() >= 5 && (t[2] == "gamma_above" || t[2] == "gamma_below") {
+            let n: usize = t[0].parse().unwrap();
+            let i: u64 = t[1].parse().unwrap();
+            let cand: usize = t[4].trim_start_matches("cand=").parse().unwrap();
+            let mut rng = rand::rngs::StdRng::from_seed(special_seed(i));
+            let mut n1 = 0f64;
+            let mut f0g0 = 0i64;
+            for _ in 0..cand {
+                let f = vh::gen_poly(n, &mut rng);
+                let g = vh::gen_poly(n, &mut rng);
+                n1 = f.iter().chain(g.iter()).map(|&x| (x as f64) * (x as f64)).sum::<f64>();
+                f0g0 = (f[0] as i64) * (f[0] as i64) + (g[0] as i64) * (g[0] as i64);
+            }
+            println!("{n} {i} {} {} first={:.6} f0g0={}", t[2], t[3], n1 / 12289.0, f0g0);
+        }
+    }
+}
